@@ -388,6 +388,9 @@ impl RandGen {
                 if cb > 0 && self.rng.chance(1, 3) {
                     self.pending.push_back(Op::Shallow(w.objs.len() as ObjId));
                 }
+                if self.rng.chance(1, 5) {
+                    self.pending.push_back(Op::RawRelease(w.objs.len() as ObjId));
+                }
                 if self.rng.chance(1, 3) {
                     Some(Op::NewVia(1 + self.rng.below(4) as u8))
                 } else {
@@ -1206,4 +1209,30 @@ pub fn script_ops(idx: u64, seed: u64, mode: ScriptMode) -> (Vec<Op>, String) {
         build.push(Op::CloneLate(crate::ops::rel(0)));
     }
     (build, desc)
+}
+
+
+/// Give up handles through other entry points than a plain drop (same meaning, other code path):
+/// every fourth drop goes through into_raw + decrement_strong_count, and some objects release
+/// their stored handles that way inside their destructor.
+pub fn with_drop_variants(ops: Vec<Op>, seed: u64) -> Vec<Op> {
+    let mut rng = Rng::new(seed ^ 0xD409);
+    let n_objs = ops.iter().take_while(|o| matches!(o, Op::New)).count();
+    let mut out = Vec::with_capacity(ops.len() + n_objs);
+    let mut marked = false;
+    for op in ops {
+        if !marked && !matches!(op, Op::New) {
+            marked = true;
+            for i in 0..n_objs {
+                if rng.chance(1, 4) {
+                    out.push(Op::RawRelease(i as ObjId));
+                }
+            }
+        }
+        match op {
+            Op::Drop(s) if rng.chance(1, 4) => out.push(Op::DecStrong(s)),
+            other => out.push(other),
+        }
+    }
+    out
 }
